@@ -124,7 +124,7 @@ def run(ids, tier="quick"):
     """Development mode: the change is applied in a scratch worktree and the checks are pointed at
     it with VERIF_REPO (so that /repo stays usable for concurrent work). The registered procedure
     (git -C /repo apply; run; git -C /repo checkout -- .) gives the same result."""
-    wt = "/tmp/seed_run_wt"
+    wt = os.environ.get("SEED_WT", "/tmp/seed_run_wt")
     sh("git -C %s worktree remove --force %s" % (REPO, wt))
     rc, out = sh("git -C %s worktree add --detach %s HEAD" % (REPO, wt))
     assert rc == 0, out
